@@ -311,7 +311,6 @@ func (it *oInterp) atomicLib(f *types.Func, recv oval, args []oval) ([]oval, boo
 	return nil, false
 }
 
-
 // mutexLib: sync.Mutex and sync.RWMutex in a sequential interpretation.  Locking cannot block a
 // single thread of control, but the state still matters: releasing a mutex that is not held is a
 // fatal error of the run-time system, and acquiring one the same thread already holds never
